@@ -137,6 +137,9 @@ func c10(c *Ctx) {
 			continue
 		}
 		nDeref += c10derefs(c, f)
+		if f.Parent() == nil {
+			c.mech(f) // the renderer's functions: their failed steps fall under R10.0
+		}
 	}
 	if nDeref < 30 {
 		c.R.Unknown("optional pointer dereferences", "", "fewer dereferences found than on the reference tree")
